@@ -280,10 +280,18 @@ def emnist_ids(case):
   lo, hi = case['range']
   for n in range(lo, hi):
     for suffix in (b'00', b'99'):
-      for fmt in ('short', 'long'):
+      # 'long' ids carry a 16-hex-digit hash prefix; the hash itself may contain 'f' followed by digits that look like a
+      # writer number on the other side (or the same side) of the documented range
+      for fmt in ('short', 'long', 'long_f_inside', 'long_f_outside', 'long_upper'):
         cid = b'f%04d_%s' % (n, suffix)
         if fmt == 'long':
           cid = b'0123456789abcdef:' + cid
+        elif fmt == 'long_f_inside':
+          cid = b'85328f2121e5989a:' + cid
+        elif fmt == 'long_f_outside':
+          cid = b'00f0000f9999aaaa:' + cid
+        elif fmt == 'long_upper':
+          cid = b'0F2100F0000ABCDE:' + cid
         want = 0 if 2100 <= n <= 2599 else 1
         got = ds.domain_id(cid)
         require(got == want, 'EMNIST domain id of %r' % cid, want, got, case=dict(case, range=[n, n + 1]))
@@ -349,7 +357,48 @@ def row_independence(case):
   return {'evals': evals, 'nontrivial': True, 'outcome': name}
 
 
-SUBS = {'shakespeare_tok': shakespeare_tok, 'lm_crosscheck': lm_crosscheck, 'cifar': cifar, 'cifar_invalid': cifar_invalid,
+def so_tokenizer_orders(case):
+  """One tokenizer object serving several max_length values: the functions are created in every order and first used in
+  every order (documented usage: train and eval functions built from one tokenizer before either runs); each must pad /
+  truncate to ITS length."""
+  from fedjax.datasets import stackoverflow as ds
+  vocab = ['a', 'b']
+  lengths = case['lengths']
+  sents = [[0], [0, 1, 2], [2, 2, 1, 0, 1]]
+  words = ['a', 'b', 'zzz']
+  toks = np.array([' '.join(words[i] for i in st).encode() for st in sents], dtype=object)
+  oov = len(vocab) + 3
+
+  def want(L):
+    xs, ys = [], []
+    for st in sents:
+      ids = [1] + [3 + i if i < 2 else oov for i in st] + [2]
+      xs.append((ids[:-1] + [0] * L)[:L])
+      ys.append((ids[1:] + [0] * L)[:L])
+    return xs, ys
+  evals = 0
+  for api in ('as_preprocess_batch', 'create_token_to_ids_fn'):
+    for create_order in itertools.permutations(lengths):
+      for use_order in (itertools.permutations(lengths) if case.get('all_use_orders', True) else (tuple(lengths), tuple(reversed(lengths)))):
+        nc = dict(case, api=api, create_order=list(create_order), use_order=list(use_order))
+        tok = ds.DefaultWordTokenizer(vocab)
+        fns = {L: getattr(tok, api)(L) for L in create_order}
+        for rep in range(2):
+          for L in use_order:
+            if api == 'as_preprocess_batch':
+              out = fns[L]({'tokens': toks, 'domain_id': np.zeros(len(sents), np.int32)})
+              x, y = np.asarray(out['x']), np.asarray(out['y'])
+            else:
+              x, y = [np.asarray(v) for v in fns[L](toks)]
+            wx, wy = want(L)
+            require(x.tolist() == wx and y.tolist() == wy, '%s(%d) of a tokenizer that also serves lengths %r does not pad / '
+                    'truncate to its own max_length' % (api, L, [l for l in lengths if l != L]), [wx, wy],
+                    [x.tolist(), y.tolist()], case=nc)
+        evals += 1
+  return {'evals': evals, 'nontrivial': len(lengths) > 1, 'outcome': lengths}
+
+
+SUBS = {'so_tokenizer_orders': so_tokenizer_orders, 'shakespeare_tok': shakespeare_tok, 'lm_crosscheck': lm_crosscheck, 'cifar': cifar, 'cifar_invalid': cifar_invalid,
         'emnist_ids': emnist_ids, 'row_independence': row_independence}
 TIMEOUTS = {k: 1500 for k in SUBS}
 
@@ -359,7 +408,7 @@ def plan(ctx):
   ctx.rule = ('Shakespeare: all lists of <=%d snippets of length <=%d over bytes {a,d,9,\\\\r,0xFF} x sequence lengths 2..6; '
               'model cross-check on all lists of <=2 snippets (len<=2) x sequence lengths; StackOverflow: all lists of <=2 '
               'sentences of <=3 words over {a,b,OOV} x max_length 2..4; CIFAR-100: crop sizes (quick {1,2,23,24,31,32}^2, '
-              'thorough 1..32^2) x 6 images, distorted crops over all offsets x flips; EMNIST: all 10000 writer ids x 2 formats x '
+              'thorough 1..32^2) x 6 images, distorted crops over all offsets x flips; EMNIST: all 10000 writer ids x 5 formats (hash prefixes that contain f+digits) x '
               '2 suffixes; row independence: 8 packaged models x all batches of <=3 rows' % (3 if th else 2, 3 if th else 2))
   ctx.assumptions += ['tf.image.per_image_standardization / resize_with_crop_or_pad are the oracle for CIFAR-100',
                       'packaged LSTM models are instantiated with small hidden sizes (metrics do not depend on them)']
@@ -393,6 +442,9 @@ def plan(ctx):
                  if not th else (h + w) >= 56 or (h, w) == (24, 24)})
   ctx.pmap('cifar', cc, chunk=4)
   ctx.run('cifar_invalid', [{'h': h, 'w': w, 'distort': d} for h, w in ((0, 5), (5, 0), (33, 5), (5, 33), (-1, 5)) for d in (False, True)])
+  ctx.pmap('so_tokenizer_orders', [{'lengths': ls, 'all_use_orders': th or len(ls) < 3}
+                                   for ls in ([[2, 4], [4, 7, 20], [3, 3]] if not th else
+                                              [[2, 4], [4, 7, 20], [3, 3], [1, 2, 5], [20, 30]])], chunk=1)
   ctx.pmap('emnist_ids', [{'range': [a, a + 1000]} for a in range(0, 10000, 1000)], chunk=1)
   ctx.pmap('row_independence', [{'model': m} for m in ('emnist_conv', 'emnist_dense', 'emnist_logistic', 'emnist_stax',
                                                        'cifar_logistic', 'shakespeare_lstm', 'stackoverflow_lstm',
